@@ -66,7 +66,8 @@ class C18(Machine):
     probe_names = ("query_after_update", "scale_update", "single_edge_update",
                    "complex_impedances", "series_law_checked",
                    "parallel_law_checked", "aliased_update",
-                   "megaohm_circuit", "retyped_real_complex")
+                   "megaohm_circuit", "retyped_real_complex",
+                   "two_networks_interleaved", "resistances_on_non_links")
     real_vs_stub = {"real": ["ResNetwork (constructor, update_resistances, "
                              "all resistive queries, compiled VCFB/ECFB "
                              "kernels)"], "stub": []}
@@ -95,14 +96,17 @@ class C18(Machine):
                "rseed": a.randrange(10 ** 9),
                # milli-ohm ... mega-ohm circuits
                "mag": a.choice((1.0, 1.0, 1.0, 1e-3, 1e3, 1e6, 1e7)),
-               "derive_adjacency": a.random() < 0.3}
+               "derive_adjacency": a.random() < 0.3,
+               "extra_entries": a.random() < 0.3,
+               "n_objects": a.choice((1, 1, 2))}
         names = QUERIES_REAL
         ops = []
         for _ in range(o.randrange(4, 16)):
+            which = o.randrange(cfg["n_objects"])
             if o.random() < 0.3:
                 k = o.choice(("random", "random", "scale", "scale", "edge",
                               "edge", "retype"))
-                op = {"op": "update", "kind": k}
+                op = {"op": "update", "kind": k, "obj": which}
                 if k == "random":
                     op["rseed"] = o.randrange(10 ** 9)
                 elif k == "scale":
@@ -117,7 +121,7 @@ class C18(Machine):
                 ops.append(op)
             else:
                 q = o.choice(names)
-                op = {"op": "query", "name": q, "args": []}
+                op = {"op": "query", "name": q, "args": [], "obj": which}
                 if q == "effective_resistance":
                     op["args"] = [o.randrange(n), o.randrange(n)]
                 elif q in ("effective_resistance_closeness_centrality",
@@ -131,102 +135,127 @@ class C18(Machine):
         from pyunicorn.core.resistive_network import ResNetwork
         R = Result()
         cfg, g = run["config"], run["graph"]
-        A = make_graph(g)
-        n = A.shape[0]
-        cplx = cfg["complex"]
         mag = cfg.get("mag", 1.0)
-        Rm = resist(A, cfg["rseed"], cplx, cfg["ints"], mag)
-        held = Rm.copy()            # the caller's own array
-        # constructor paths: adjacency given, or derived from the non-zero
-        # resistances
-        if cfg.get("derive_adjacency"):
-            net = ResNetwork(held, silence_level=3)
-        else:
-            net = ResNetwork(held, adjacency=A.copy(), silence_level=3)
-        ref = Circuit(A, Rm)
-        if cplx:
+
+        class Obj:
+            pass
+        objs = []
+        for k in range(cfg.get("n_objects", 1)):
+            o = Obj()
+            gk = dict(g, gseed=g["gseed"] + 17 * k)
+            o.A = make_graph(gk)
+            o.n = o.A.shape[0]
+            o.cplx = cfg["complex"]
+            Rm = resist(o.A, cfg["rseed"] + 31 * k, o.cplx, cfg["ints"], mag)
+            o.ref = Circuit(o.A, Rm)
+            if cfg.get("extra_entries") and not cfg.get("derive_adjacency"):
+                # resistance values also for node pairs that are not links:
+                # with an explicit adjacency they must be ignored
+                full = resist(np.ones_like(o.A) - np.eye(o.n, dtype=o.A.dtype),
+                              cfg["rseed"] + 5 + k, o.cplx, False, mag)
+                Rm = np.where(o.A != 0, Rm, full)
+                R.probe("resistances_on_non_links")
+            o.extra = Rm * (o.A == 0)
+            o.held = Rm.copy()            # the caller's own array
+            # constructor paths: adjacency given, or derived from the
+            # non-zero resistances
+            if cfg.get("derive_adjacency"):
+                o.net = ResNetwork(o.held, silence_level=3)
+            else:
+                o.net = ResNetwork(o.held, adjacency=o.A.copy(),
+                                   silence_level=3)
+            o.n_upd = 0
+            o.queried = False
+            o.last_scale = None        # (c, ER matrix before)
+            o.edges = [(i, j) for i in range(o.n) for j in range(i)
+                       if o.A[i, j]]
+            objs.append(o)
+        if cfg["complex"]:
             R.probe("complex_impedances")
         if mag >= 1e6:
             R.probe("megaohm_circuit")
-        n_upd = 0
-        queried = False
-        last_scale = None          # (c, ER matrix before)
-        since = []                 # query names since the last update
+        if len(objs) > 1:
+            R.probe("two_networks_interleaved")
         sig_ops = []
-        edges = [(i, j) for i in range(n) for j in range(i) if A[i, j]]
         for step, op in enumerate(run["ops"]):
             R.steps += 1
+            o = objs[op.get("obj", 0) % len(objs)]
+            net, ref = o.net, o.ref
+            tagobj = f"{op.get('obj', 0) % len(objs)}:"
             if op["op"] == "update":
+                alias = op.get("alias")
                 if op["kind"] == "retype":
                     # real <-> complex impedances on the same object
-                    cplx = not cplx
-                    new = resist(A, op.get("rseed", step + 1), cplx, False,
-                                 mag)
-                    last_scale = None
-                    held = new.copy()
-                    op = dict(op, alias=False)
+                    o.cplx = not o.cplx
+                    new = resist(o.A, step + 1, o.cplx, False, mag)
+                    o.last_scale = None
+                    alias = False
                     R.probe("retyped_real_complex")
                 elif op["kind"] == "random":
-                    new = resist(A, op["rseed"], cplx, False, mag)
-                    last_scale = None
+                    new = resist(o.A, op["rseed"], o.cplx, False, mag)
+                    o.last_scale = None
                 elif op["kind"] == "scale":
                     top = float(np.max(np.abs(ref.R))) * op["c"]
                     if not 1e-9 <= top <= 1e9:
                         continue      # keep the circuit representable
-                    last_scale = (op["c"], ref.er_all())
+                    o.last_scale = (op["c"], ref.er_all())
                     new = ref.R * op["c"]
                     R.probe("scale_update")
                 else:
-                    i, j = edges[op["e"] % len(edges)]
+                    i, j = o.edges[op["e"] % len(o.edges)]
                     new = ref.R.copy()
                     vals = np.abs(ref.R[ref.A != 0])
                     cur = 10.0 ** np.round(np.log10(np.median(vals) / 3.0))
                     new[i, j] = new[j, i] = op["value"] * cur + (
-                        new[i, j].imag * 1j if cplx else 0)
-                    last_scale = None
+                        new[i, j].imag * 1j if o.cplx else 0)
+                    o.last_scale = None
                     R.probe("single_edge_update")
-                if op.get("alias"):
-                    held[...] = new          # in-place edit, same object
+                if op["kind"] == "scale":
+                    o.extra = o.extra * op["c"]
+                # entries on non-links keep whatever the caller has there,
+                # in the type of the new matrix
+                extra = o.extra if np.iscomplexobj(new) else np.real(o.extra)
+                passed = new * (o.A != 0) + extra
+                if alias and o.held.dtype == passed.dtype:
+                    o.held[...] = passed     # in-place edit, same object
                     R.probe("aliased_update")
-                    out = C.call(net.update_resistances, held)
                 else:
-                    held = new.copy()
-                    out = C.call(net.update_resistances, held)
+                    o.held = passed.copy()
+                out = C.call(net.update_resistances, o.held)
                 if isinstance(out, C.Raised):
                     R.violate(f"{self.pid}|update_resistances|raises",
                               f"valid update raised {out!r}")
                     break
-                ref.set_R(new)
-                n_upd += 1
-                since = []
-                sig_ops.append("u:" + op["kind"])
+                ref.set_R(new * (o.A != 0))
+                o.n_upd += 1
+                sig_ops.append(tagobj + "u:" + op["kind"])
                 R.trace.append(("update", op["kind"]))
                 continue
             name = op["name"]
-            if cplx and name not in QUERIES_CPLX:
+            if o.cplx and name not in QUERIES_CPLX:
                 continue          # judged for real impedances only
-            sig_ops.append("q:" + name)
-            when = "updated" if n_upd else "initial"
-            if n_upd and queried:
+            sig_ops.append(tagobj + "q:" + name)
+            when = "updated" if o.n_upd else "initial"
+            if o.n_upd and o.queried:
                 R.nontrivial = True
                 R.probe("query_after_update")
-            queried = True
-            since.append(name)
+            o.queried = True
+            args = [a % o.n for a in op["args"]]
             if name == "laws":
-                self._laws(R, net, ref, g, cplx, last_scale, when)
+                self._laws(R, net, ref, g, o.cplx, o.last_scale, when)
                 continue
-            got = C.call(getattr(net, name), *op["args"])
-            want, tol = self._ref(ref, name, op["args"])
+            got = C.call(getattr(net, name), *args)
+            want, tol = self._ref(ref, name, args)
             ok, why = C.same(got, want, tol)
-            R.trace.append((name, op["args"], C.digest_of(
+            R.trace.append((name, args, C.digest_of(
                 np.round(np.asarray(got, dtype=complex), 5)
                 if not isinstance(got, C.Raised) else got)))
             if not ok:
                 R.violate(f"{self.pid}|{name}|value|{when}",
-                          f"step {step}: {name}{tuple(op['args'])} = "
+                          f"step {step}: {name}{tuple(args)} = "
                           f"{C.short(got)} but the circuit model gives "
-                          f"{C.short(want)} ({why}); updates so far {n_upd}",
-                          victim=f"{name}|value")
+                          f"{C.short(want)} ({why}); updates so far "
+                          f"{o.n_upd}", victim=f"{name}|value")
         R.opsig = C.digest_of(repr((g["kind"], sig_ops)))
         return R.as_dict()
 
